@@ -268,6 +268,23 @@ pub fn check_case(c: &Case, choices: &[u32], acc: &mut Acc) {
             // backends that write docs as line comments have nothing to escape: every line of the doc is there verbatim
             if matches!(c.lang, Lang::Scala | Lang::Swift | Lang::Go | Lang::Kotlin) && code == base {
                 let all: String = comments.join("\n");
+                // an empty doc line written before / after the doc is an empty comment line at that place
+                if matches!(c.companion, 3 | 4) {
+                    let strip = |l: &str| l.trim().trim_start_matches(|ch: char| ch == '/' || ch == '*' || ch == '!').trim().to_string();
+                    let lines: Vec<String> = comments.iter().flat_map(|cm| cm.split('\n').map(strip).collect::<Vec<_>>()).collect();
+                    let found = if c.companion == 3 {
+                        lines.iter().position(|l| l.contains("DOCE7")).map(|i| lines.get(i + 1).map(|n| n.is_empty()).unwrap_or(false))
+                    } else {
+                        lines.iter().position(|l| l.contains("DOCB7")).map(|i| i > 0 && lines[i - 1].is_empty())
+                    };
+                    if found == Some(false) {
+                        okk = false;
+                        acc.vios.add(Violation {
+                            sig: format!("C15|{}|doc-line-not-reproduced-verbatim|{shape}|empty-doc-line-{}", c.lang.name(), if c.companion == 3 { "after" } else { "before" }),
+                            detail: detail(json!({"doc_line": "(an empty doc line)", "comment_lines": lines})),
+                        });
+                    }
+                }
                 // (the companion line as often as it was written)
                 let companion_lines = match c.companion { 1 | 2 => 1, 5 => 2, _ => 0 };
                 if all.matches("plain companion line").count() != companion_lines {
